@@ -583,14 +583,14 @@ package sipsp
 //@   ensures err == ErrHdrMoreBytes ==> ptOK(param, n)
 //@   ensures err == ErrHdrMoreBytes ==> param.state != vpFIN && (param.state == vpInitNxtVal ==> param_old.state == vpInitNxtVal)
 //@   ensures err == ErrHdrMoreValues ==> param.state == vpInitNxtVal && (n > offs || param_old.state == vpFNxt)
-//@   ensures[C17] "suspended": ptInv(buf, &param_old, offs, flags) && err == ErrHdrMoreBytes ==> ptInv(buf, param, n, flags)
-//@   ensures[C17] "param-found": ptInv(buf, &param_old, offs, flags) && param_old.state != vpFIN && param_old.state != vpERR && (err == ErrHdrOk || err == ErrHdrMoreValues || (err == ErrHdrEOH && param.state == vpFIN)) ==>
+//@   ensures[C17,leaf] "suspended": ptInv(buf, &param_old, offs, flags) && err == ErrHdrMoreBytes ==> ptInv(buf, param, n, flags)
+//@   ensures[C17,leaf] "param-found": ptInv(buf, &param_old, offs, flags) && param_old.state != vpFIN && param_old.state != vpERR && (err == ErrHdrOk || err == ErrHdrMoreValues || (err == ErrHdrEOH && param.state == vpFIN)) ==>
 //@                 ptNameDone(buf, param, flags) && ptValDone(buf, param, flags) && fend(param.All) <= n
-//@   ensures[C17] "ok-at-terminator": param_old.state != vpFIN && err == ErrHdrOk ==> param.state == vpFIN && n < len(buf) &&
+//@   ensures[C17,leaf] "ok-at-terminator": param_old.state != vpFIN && err == ErrHdrOk ==> param.state == vpFIN && n < len(buf) &&
 //@                 ((ptTerm(flags) != 0 && buf[n] == ptTerm(flags)) || flags&POptTokSpTermF != 0)
-//@   ensures[C17] "more-values": err == ErrHdrMoreValues ==> param.state == vpInitNxtVal && n < len(buf) && tokAllowedChar(buf[n], flags) && buf[n] != ptSep(flags)
-//@   ensures[C17] "only-separators-skipped": ptInv(buf, &param_old, offs, flags) && err == ErrHdrMoreValues ==> fend(param.All) < n && sepOrLws(buf, fend(param.All), n, flags)
-//@   ensures[C17] "bad-char": err == ErrHdrBadChar && param.state == vpERR ==> n < len(buf) && (!tokAllowedChar(buf[n], flags) || flags&POptTokSpTermF == 0)
+//@   ensures[C17,leaf] "more-values": err == ErrHdrMoreValues ==> param.state == vpInitNxtVal && n < len(buf) && tokAllowedChar(buf[n], flags) && buf[n] != ptSep(flags)
+//@   ensures[C17,leaf] "only-separators-skipped": ptInv(buf, &param_old, offs, flags) && err == ErrHdrMoreValues ==> fend(param.All) < n && sepOrLws(buf, fend(param.All), n, flags)
+//@   ensures[C17,leaf] "bad-char": err == ErrHdrBadChar && param.state == vpERR ==> n < len(buf) && (!tokAllowedChar(buf[n], flags) || flags&POptTokSpTermF == 0)
 
 // ---- URI parameter and header lists (C17) ----
 
